@@ -4,8 +4,9 @@ use crate::live_events::LiveEvents;
 use super::{Cfg, Error, Events, Options, YamlDeserializer};
 
 fn normalize_str_input(input: &str) -> &str {
-    // Normalize: ignore a single leading UTF-8 BOM if present.
-    input.strip_prefix('\u{FEFF}').unwrap_or(input)
+    // A single leading UTF-8 BOM is ignored: `LiveEvents::from_str` strips it (exactly once, as
+    // the reader path does), and snippet rendering strips it from the text it is given.
+    input
 }
 
 fn deserialize_with_scope<'de, R, F, W>(
